@@ -271,6 +271,54 @@ func run(c *runner.Ctx) {
 		lists = append(lists, rlist{pr[0] + "," + pr[1], nil, "pair-bare"}, rlist{pr[1] + "," + pr[0], nil, "pair-bare"},
 			rlist{pr[0] + "|m1," + pr[1] + "|m1", []string{"m1"}, "pair-same-message"})
 	}
+	// a globally registered rule function that is replaced by another registration: every entry point resolves the name
+	// at call time (the tagged type was validated under the first registration already)
+	c.Space("re-registered-global-function")
+	for k := 0; k < 40; k++ {
+		if !c.Take() {
+			continue
+		}
+		name := fmt.Sprintf("rr%dw%d", k, c.Worker)
+		mk := func(text string) valid.CommonValidFn {
+			return func(errBuf *strings.Builder, validName, objName, fieldName string, tv reflect.Value) {
+				errBuf.WriteString(valid.GetJoinValidErrStr(objName, fieldName, valid.ToStr(tv.Interface()), valid.ExplainEn, text))
+			}
+		}
+		v := vals[(k*7)%len(vals)]
+		if v.v.IsZero() {
+			v = vals[1]
+		}
+		rules := name + "|m1"
+		expect := func(stage, text string) {
+			for _, car := range cars {
+				if !car.ok(v.v) || strings.HasPrefix(car.name, "url-bare") || car.name == "map-iface" {
+					continue
+				}
+				if car.name == "struct-rm" && !carrier.Supports(carrier.StructRM, v.v) {
+					continue
+				}
+				var err error
+				pan, msg, site := runner.Guard(func() { err = car.run(v.v, rules) })
+				c.AddTransitions(1)
+				if pan {
+					c.Violation("panic@"+site+"/"+car.name, map[string]interface{}{"rules": rules, "value": v.name, "carrier": car.name, "panic": msg})
+					continue
+				}
+				got := ""
+				if err != nil {
+					got = err.Error()
+				}
+				if !strings.Contains(got, "explain: "+text) || strings.Count(got, "explain:") != 1 {
+					c.Violation("re-registration/"+car.name+"/"+stage, map[string]interface{}{"rule_name": name, "value": v.name, "carrier": car.name, "stage": stage, "expected_explanation": text, "error": got})
+				}
+			}
+		}
+		valid.SetCustomerValidFn(name, mk("first-"+name))
+		expect("first-registration", "first-"+name)
+		valid.SetCustomerValidFn(name, mk("second-"+name))
+		expect("second-registration", "second-"+name)
+		c.Done(true, 0)
+	}
 	c.Space("rules x values x carriers")
 	for _, rl := range lists {
 		for _, v := range vals {
